@@ -492,6 +492,8 @@ class Cells(Interface, Mapping, Callable, ItemFactory):
                     c.is_derived() and impl.spmgr.get_deriv_bases(
                         c, defined_only=True)[0] is impl):
                 c.allow_none = value
+                # ItemSpaces hold copies of the cells made with the old value
+                space.clear_subs_rootitems()
 
     @property
     def value(self):
